@@ -496,6 +496,30 @@ impl<'a> Gen<'a> {
                 q.insert("model_name".into(), json!(*self.r.pick(&["no_such_vehicle", "", "toyota_camry"])));
                 ("unknown_vehicle".into(), self.c.traversal == Traversal::Energy)
             }
+            7 if self.r.chance(1, 3) => {
+                // both cost-model maps overridden at once, each possibly incomplete
+                let names: &[&str] = match self.c.traversal {
+                    Traversal::Distance => &["distance"],
+                    Traversal::SpeedTable => &["distance", "time"],
+                    Traversal::Energy => &["distance", "time", "energy_liquid", "energy_electric"],
+                };
+                let mut w = Map::new();
+                let mut vr = Map::new();
+                for n in names {
+                    if self.r.chance(2, 3) {
+                        w.insert(n.to_string(), json!(self.r.range(0, 2)));
+                    }
+                    if self.r.chance(2, 3) {
+                        vr.insert(n.to_string(), self.r.pick(&[json!({"type": "raw"}), json!({"type": "zero"}), json!({"type": "factor", "factor": 2}), json!(["raw"])]).clone());
+                    }
+                }
+                if self.r.chance(1, 6) {
+                    w.insert("no_such_feature".into(), json!(1));
+                }
+                q.insert("weights".into(), Value::Object(w));
+                q.insert("vehicle_rates".into(), Value::Object(vr));
+                ("cost_overrides".into(), false)
+            }
             7 => {
                 let w = match self.r.below(6) {
                     0 => self.weights(false),
@@ -685,6 +709,21 @@ fn gen_case(r: &mut Rng, cat: &[AppCfg], st: &mut Stream) -> Case {
             }
         }
     }
+    // now and then NO query of the batch is allowed to reach the search: every object query gets an unreadable weight
+    let lb_writes = cfg.inputs.iter().any(|p| matches!(p, InPlugin::LbNumeric { .. } | InPlugin::LbCategorical { .. } | InPlugin::LbHaversine));
+    if !lb_writes && r.chance(1, 12) {
+        for q in qs.iter_mut() {
+            let w = r.pick(&[json!("heavy"), json!([1]), json!({}), json!(false), Value::Null]).clone();
+            q.as_object_mut().unwrap().insert("query_weight_estimate".into(), w);
+        }
+        st.count("batch:only_dropouts");
+        must_err.clear();
+        for q in qs.iter() {
+            if !(has_grid(&cfg) && q.get("grid_search").is_some()) {
+                must_err.push(q["tag"].as_str().unwrap().to_string());
+            }
+        }
+    }
     // now and then a batch element that is not an object
     if nq > 0 && r.chance(1, 6) {
         let pos = r.below(qs.len() as u64 + 1) as usize;
@@ -855,10 +894,39 @@ fn underlying_route(apps: &mut Apps, cfg: &AppCfg, q: &Value, timeout: u64) -> O
     }
 }
 
-/// returns true when the call did not return although the case is outside the known-finding class: the abandoned
-/// thread may allocate without bound, so the caller stops the stream right away
+/// whole-case guard.  Before the case runs its description is written to `<out>/<stream>.current.json` (removed
+/// when the case is over): if the harness PROCESS dies (abort, stack overflow, out of memory) the check script finds
+/// the case that killed it there.  A panic anywhere in the case outside the watched call (harness code, recorders,
+/// table construction) becomes the implementation line `HARNESS-PANIC ...` of that case instead of ending the stream.
 fn run_case(st: &mut Stream, apps: &mut Apps, case: &Case, timeout: u64) -> bool {
     let id = st.next_id();
+    let marker = st.dir.join(format!("{}.current.json", st.name));
+    let desc = json!({"id": id, "family": case.family, "user": case.user, "must_err": case.must_err, "override": case.over,
+                      "cfg_id": case.cfg_id, "cfg": cfg_to_json(&case.cfg)});
+    let _ = std::fs::write(&marker, desc.to_string());
+    let r = catch(std::panic::AssertUnwindSafe(|| run_case_inner(st, apps, case, timeout)));
+    let stop = match r {
+        Ok(stop) => stop,
+        Err(msg) => {
+            if st.next_id() == id {
+                st.case(vec![format!("line \"M\" {} \"the case completes\"", id), format!("line \"S\" {} \"the case completes\"", id)],
+                        vec![format!("I {} HARNESS-PANIC {}", id, msg.replace('\n', " "))], desc);
+            }
+            false
+        }
+    };
+    let _ = std::fs::remove_file(&marker);
+    stop
+}
+
+/// returns true when the call did not return although the case is outside the known-finding class: the abandoned
+/// thread may allocate without bound, so the caller stops the stream right away
+fn run_case_inner(st: &mut Stream, apps: &mut Apps, case: &Case, timeout: u64) -> bool {
+    let id = st.next_id();
+    // self-test of the driver's handling of a dying harness: VERIF_C12_ABORT_AT=<case id>
+    if std::env::var("VERIF_C12_ABORT_AT").ok().and_then(|x| x.parse::<usize>().ok()) == Some(id) {
+        std::process::abort();
+    }
     let cfg = &case.cfg;
     let desc = json!({"id": id, "family": case.family, "user": case.user, "must_err": case.must_err, "override": case.over,
                       "cfg_id": case.cfg_id, "cfg": cfg_to_json(cfg)});
@@ -1219,6 +1287,73 @@ fn boundary(cat: &[AppCfg]) -> Vec<Case> {
             }
         }
     }
+    // ---- batches in which NO query reaches the search: only load-balancer drop-outs (unreadable weight estimate),
+    //      input-plugin failures and non-objects, sizes 1..5, with and without plugins in front (seed C12-7)
+    {
+        let bad_w = [json!("heavy"), json!([1]), json!({}), json!(true), Value::Null];
+        let mut k = 0usize;
+        for cfg_id in [0usize, 1, 2, 3, 4, 8, 10, 11, 14, 15, 26] {
+            for size in 1..=5usize {
+                for mix in 0..3usize {
+                    let mut qs = vec![];
+                    for i in 0..size {
+                        k += 1;
+                        let w = bad_w[k % bad_w.len()].clone();
+                        let q = match (mix, i % 3) {
+                            (0, _) | (1, 0) | (2, 1) => json!({"tag": format!("t{}", i), "origin_vertex": i % 9, "destination_vertex": 8 - i % 9, "cat": "a", "query_weight_estimate": w}),
+                            (1, 1) => json!(i),
+                            (1, _) => json!({"tag": format!("t{}", i), "origin_vertex": 0, "destination_vertex": 8, "cat": "a", "blocked": 1, "blöcked😀": 1, "query_weight_estimate": w}),
+                            (_, 0) => json!({"tag": format!("t{}", i), "origin_vertex": 1, "destination_vertex": 2, "cat": "a", "query_weight_estimate": w, "grid_search": {"note": ["x", "y"]}}),
+                            _ => json!([{"tag": format!("t{}", i)}]),
+                        };
+                        qs.push(q);
+                    }
+                    v.push(mk(cfg_id, Value::Array(qs), &[], "only_dropouts"));
+                }
+            }
+        }
+    }
+    // ---- the query overrides BOTH cost-model maps: weights omitting / adding / zeroing features x vehicle_rates
+    //      absent / complete / partial / empty / foreign (seed C12-8)
+    for cfg_id in [0usize, 1, 5, 6, 8, 16, 21] {
+        let feats: Vec<&str> = match cat[cfg_id].traversal {
+            Traversal::Distance => vec!["distance"],
+            Traversal::SpeedTable => vec!["distance", "time"],
+            Traversal::Energy => vec!["distance", "time", "energy_liquid"],
+        };
+        let obj = |ks: &[&str], val: Value| Value::Object(ks.iter().map(|k| (k.to_string(), val.clone())).collect());
+        let mut ws = vec![None, Some(obj(&feats, json!(1))), Some(obj(&feats[..feats.len() - 1], json!(1))), Some(obj(&feats[feats.len() - 1..], json!(1))),
+                          Some(json!({})), Some(obj(&feats, json!(0)))];
+        let mut more = feats.clone();
+        more.push("no_such_feature");
+        ws.push(Some(obj(&more, json!(1))));
+        let raw = json!({"type": "raw"});
+        let rs = vec![None, Some(obj(&feats, raw.clone())), Some(obj(&feats[..feats.len() - 1], raw.clone())), Some(obj(&feats[feats.len() - 1..], raw.clone())),
+                      Some(json!({})), Some(json!({"no_such_feature": {"type": "raw"}})), Some(obj(&feats, json!({"type": "factor", "factor": 0})))];
+        for (wi, w) in ws.iter().enumerate() {
+            for (ri, r) in rs.iter().enumerate() {
+                // every combination under one configuration per traversal model, a third of them under the others
+                if ![0usize, 6, 16].contains(&cfg_id) && (wi + ri + cfg_id) % 3 != 0 {
+                    continue;
+                }
+                let mut q = if cat[cfg_id].edge_oriented { json!({"tag": "t1", "origin_edge": 0, "destination_edge": 7}) } else { json!({"tag": "t1", "origin_vertex": 0, "destination_vertex": 8}) };
+                q["model_name"] = json!("Toyota_Camry");
+                q["query_weight_estimate"] = json!(1);
+                q["w"] = json!(1);
+                let mut t0 = q.clone();
+                t0["tag"] = json!("t0");
+                let mut t2 = q.clone();
+                t2["tag"] = json!("t2");
+                if let Some(w) = w {
+                    q["weights"] = w.clone();
+                }
+                if let Some(r) = r {
+                    q["vehicle_rates"] = r.clone();
+                }
+                v.push(mk(cfg_id, json!([t0, q, t2]), &[], "cost_overrides"));
+            }
+        }
+    }
     // ---- run-configuration override
     for p in [1, 2, 7] {
         let mut c = mk(5, json!([{"tag": "t0", "origin_vertex": 0, "destination_vertex": 8, "query_weight_estimate": 3}, {"tag": "t1", "origin_vertex": 1, "destination_vertex": 7, "query_weight_estimate": 1},
@@ -1334,6 +1469,11 @@ fn main() {
             named.push(("termination_frequency_zero".into(), Case { cfg_id: 101, cfg: c, user: json!([{"tag": "t0", "origin_vertex": 0, "destination_vertex": 8}]), must_err: vec![], family: "corpus_config_refused_frequency_zero".into(), over: None }));
         }
         named.push(("vehicle_rates_combined".into(), mkc(1, json!([{"tag": "t0", "origin_vertex": 0, "destination_vertex": 8, "vehicle_rates": {"time": ["combined"]}}, {"tag": "t1", "origin_vertex": 1, "destination_vertex": 2}]), &[], "corpus_vehicle_rates_combined")));
+        // seeded C12-7: nothing reaches the search and a query has an unreadable weight estimate
+        named.push(("only_dropouts".into(), mkc(0, json!([{"tag": "t0", "origin_vertex": 0, "destination_vertex": 8, "query_weight_estimate": "heavy"}, 42, {"tag": "t2", "origin_vertex": 1, "destination_vertex": 2, "query_weight_estimate": [1]}]), &["t0", "t2"], "corpus_only_dropouts")));
+        named.push(("single_dropout".into(), mkc(2, json!([{"tag": "t0", "origin_vertex": 0, "destination_vertex": 8, "query_weight_estimate": "heavy"}]), &["t0"], "corpus_only_dropouts")));
+        // seeded C12-8: weights omit a configured feature and vehicle_rates is overridden too
+        named.push(("weights_and_rates_overridden".into(), mkc(0, json!([{"tag": "t0", "origin_vertex": 0, "destination_vertex": 8}, {"tag": "t1", "origin_vertex": 0, "destination_vertex": 8, "weights": {"time": 1}, "vehicle_rates": {"time": {"type": "raw"}}}, {"tag": "t2", "origin_vertex": 1, "destination_vertex": 2}]), &[], "corpus_cost_overrides")));
         named.push(("grid_child_fails_matching".into(), mkc(19, json!([{"tag": "t0", "origin_x": -105.0, "origin_y": 39.7, "grid_search": {"destination_x": [-104.99, 0.0, -104.98], "destination_y": [39.7]}}, {"tag": "t1", "origin_x": -105.0, "origin_y": 39.7, "destination_x": -104.98, "destination_y": 39.72}]), &[], "corpus_grid_child_fails")));
         for (i, (name, c)) in named.iter().enumerate() {
             let d = json!({"family": c.family, "cfg_id": c.cfg_id, "cfg": cfg_to_json(&c.cfg), "user": c.user, "must_err": c.must_err, "override": c.over});
